@@ -91,7 +91,7 @@ def c15(tier):
 
 def c14(tier):
     if tier == 'quick':
-        return [sel('funcs', 'C14', SEL(2, 'triples', 'small', funcs=True, fset='small'), ['Emit']), EXTRAS('C14')]
+        return [sel('funcs', 'C14', SEL(2, 'triples', 'small', funcs=True, fset='small'), ['Emit']), EXTRAS('C14'), traceB_eval(3000, 60000, 'C14', EVAL_ATTR)]
     return [mech('triples-funcs', 2, 'small', 7200, funcs=True), EXTRAS('C14'), sel('funcs', 'C14', SEL(2, 'triples', 'full', funcs=True), ['Emit'], timeout=1800),
             sel('funcs-pairs', 'C14', SEL(2, 'pairs', 'small', funcs=True), ['Emit'], timeout=3600)]
 
@@ -99,7 +99,7 @@ def c14(tier):
 def c12(tier):
     if tier == 'quick':
         return [sel('funcs', 'C12', SEL(2, 'triples', 'small', funcs=True, fset='small'), ['Emit']), EXTRAS('C12'),
-                sel('omitted-root', 'C12', SEL(2, 'triples', 'tiny', spell='omit'), ['Emit'], opts='allspell=1')]
+                sel('omitted-root', 'C12', SEL(2, 'triples', 'tiny', spell='omit'), ['Emit'], opts='allspell=1'), traceB_eval(3000, 60000, 'C12', EVAL_ATTR)]
     return [sel('funcs', 'C12', SEL(2, 'triples', 'full', funcs=True), ['Emit'], timeout=3600),
             sel('pairs', 'C12', SEL(2, 'pairs', 'full'), ['Emit'], timeout=3600)]
 
@@ -238,7 +238,7 @@ def traceB_eval(n_quick, n_thorough, props, attribute):
 
 
 # which properties a Trace_Eval verdict speaks about ("a query that matches nothing is always reported as an error" is C03 too)
-EVAL_ATTR = {'expected-values-got-error': ('C01',), 'expected-failure-got-values': ('C01', 'C03'), 'values-differ': ('C01',), 'error-not-admissible': ('C15',)}
+EVAL_ATTR = {'call-log-differs': ('C14',), 'expected-values-got-error': ('C01',), 'expected-failure-got-values': ('C01', 'C03'), 'values-differ': ('C01',), 'error-not-admissible': ('C15',)}
 
 
 def keys_gen(label, maxatoms, alphabet, timeout=900, simulate=None, depth=None):
